@@ -655,6 +655,23 @@ class Prov:
                 roots.add(("upvar", p["f"], self.body.upvar_names.get(p["f"])))
         if self.stop_at_fields and any(r[0] == "field" for r in roots):
             return frozenset(roots)
+        # `t.k` of a tuple built in this body (a helper returning `(a, b)`, destructured by the caller): element k only
+        first = pl["p"][0] if pl["p"] else None
+        if isinstance(first, dict) and first.get("k") == "tuple" and "f" in first:
+            ds = self.body.defs().get(pl["l"], [])
+            src = []
+            for d in ds:
+                if d[2] == "assign" and not d[3]["place"]["p"] and d[3]["rv"]["k"] == "agg" and d[3]["rv"].get("ak") == "tuple" and first["f"] < len(d[3]["rv"]["a"]):
+                    src.append(d[3]["rv"]["a"][first["f"]])
+                elif d[2] == "assign" and not d[3]["place"]["p"] and d[3]["rv"]["k"] == "use" and op_place(d[3]["rv"]["a"][0]) is not None and not op_place(d[3]["rv"]["a"][0])["p"]:
+                    src.append({"copy": {"l": op_place(d[3]["rv"]["a"][0])["l"], "p": [first]}})
+                else:
+                    src = None
+                    break
+            if src:
+                for o in src:
+                    roots |= self.of_operand(o)
+                return frozenset(roots)
         roots |= self.of_local(pl["l"])
         # index operands are *not* provenance of the value
         return frozenset(roots)
